@@ -105,8 +105,7 @@ class Flow:
                         if isinstance(e, ast.Name) and e.id == name:
                             if isinstance(st.value, (ast.Tuple, ast.List)) and len(st.value.elts) == len(t.elts):
                                 return st.value.elts[i]
-                            if isinstance(st.value, (ast.Call, ast.Name, ast.Attribute)):
-                                return ast.fix_missing_locations(ast.copy_location(ast.Subscript(value=st.value, slice=ast.Constant(i), ctx=ast.Load()), st.value))
+                            return ast.fix_missing_locations(ast.copy_location(ast.Subscript(value=st.value, slice=ast.Constant(i), ctx=ast.Load()), st.value))
         if isinstance(st, ast.AnnAssign) and st.value is not None and isinstance(st.target, ast.Name) and st.target.id == name:
             return st.value
         return None
